@@ -116,4 +116,16 @@ func init() {
 			{Pkg: "rle", Fn: "VerifC17RLE", Desc: "rle.Codec.Encode over 10 BitsAllocated x 5 SamplesPerPixel x 3x3 sizes x 5 buffer lengths with symbolic PlanarConfiguration and contents: error or a representable frame, never a panic",
 				Bounds: [2]string{"frames <= 2x2 pixels, buffers <= 12 bytes", "same"}},
 		}})
+
+	reg(Check{Property: "C20",
+		Assumptions: []string{"value ranges are intrinsic symbol ranges: |v| <= 2^28 (RCT, 1-D DWT), < 2^18 (2-D DWT: 16-bit samples after DC shift and RCT) so that the int32 arithmetic of the real code does not wrap (the property's own domain: magnitudes up to 2^30>>6 after the transform gain)"},
+		Harnesses: []Harness{
+			{Pkg: "jpeg2000/colorspace", Fn: "VerifC20RCT", Desc: "ApplyInverseRCTToComponents(ApplyRCTToComponents(x)) == x and the scalar pair, all values symbolic", Bounds: [2]string{"2 pixels, |v| <= 2^28", "same"}},
+			{Pkg: "jpeg2000/wavelet", Fn: "VerifC20DWT1D", Desc: "Inverse53_1DWithParity(Forward53_1DWithParity(x)) == x, all samples symbolic", Bounds: [2]string{"every length 1..16, both parities", "every length 1..40"}, Params: [2]map[string]int64{P("maxN", 16), P("maxN", 40)}},
+			{Pkg: "jpeg2000/wavelet", Fn: "VerifC20DWT2D", Desc: "InverseMultilevelWithParity(ForwardMultilevelWithParity(x)) == x, all samples symbolic", Bounds: [2]string{"every w,h in 1..8, levels 0..3, origin parities {0,1}^2", "every w,h in 1..16, levels 0..5"}, Params: [2]map[string]int64{P("maxS", 8, "maxLevels", 3), P("maxS", 16, "maxLevels", 5)}},
+			{Pkg: "jpeg2000/wavelet", Fn: "VerifC20Layout", Desc: "nextLowpassWindow / LLDimensionsWithParity size arithmetic for symbolic width, height, origin in [1,2^16]", Bounds: [2]string{"levels 0..6 (deep levels decided by the one-shot solvers)", "same"}, BudgetS: [2]int{900, 2400}, OnlyTier: 2},
+			{Pkg: "jpeg2000/mqc", Fn: "VerifC20MQ", Label: "mq:initial-state", Desc: "MQ Encode/Flush -> Decode for every (bit, context) sequence of length k over 2 contexts from the initial state (contexts enumerated, bits symbolic)", Bounds: [2]string{"k = 6", "k = 9"}, Params: [2]map[string]int64{P("k", 6, "symstates", 0), P("k", 9, "symstates", 0)}, Enumerative: true},
+			{Pkg: "jpeg2000/mqc", Fn: "VerifC20MQ", Label: "mq:symbolic-state", Desc: "the same from symbolic context states (state index 0..46 and MPS bit per context are solver variables; qeTable/nmps/nlps/switch become look-up terms)", Bounds: [2]string{"k = 1", "k = 2"}, Params: [2]map[string]int64{P("k", 1, "symstates", 1), P("k", 2, "symstates", 1)}},
+			{Pkg: "jpeg2000/t1", Fn: "VerifC20T1", Desc: "T1 Encode -> DecodeWithBitplane on small blocks, all passes, orientation 0..3, style 0; sign and magnitude bits symbolic", Bounds: [2]string{"blocks 1x1,2x1,1x2, |c| < 4", "+ 2x2, 1x5, |c| < 4 (1x1..1x2: < 8)"}, Params: [2]map[string]int64{P("shapes", 3, "magbits", 2), P("shapes", 5, "magbits", 2)}, Enumerative: true, BudgetS: [2]int{240, 3000}},
+		}})
 }
